@@ -7,7 +7,7 @@ from typing import Dict, List, Optional, Set
 
 from sa.models import shape_str, strip_opt
 from sa.report import Ctx
-from sa.sym import FALSE, NONE, NOT, Summary, conjuncts, show, subst, walk
+from sa.sym import callkw, FALSE, NONE, NOT, Summary, conjuncts, show, subst, walk
 
 ENC = "soundevent.evaluation.encoding"
 DATA = "soundevent.data"
@@ -58,6 +58,18 @@ class C19:
                     idx, tag = ("sub", e, ("const", 0)), ("sub", e, ("const", 1))
                     if val[2][0] == "kv" and val[2][2] == idx:
                         table_attr, key_build = attr, subst(val[2][1], {tag: ("var", "tag")})
+            # dict(zip(<key(tag) for tag in tags>, range(len(tags)))): the same pairs (a repeated key keeps its last index there too)
+            if val[0] == "call" and val[1] == ("builtin", "dict") and len(val[2]) == 1 and not val[3] and val[2][0][0] == "call" \
+                    and val[2][0][1] == ("builtin", "zip") and len(val[2][0][2]) == 2 and not val[2][0][3]:
+                keys, idxs = val[2][0][2]
+                if keys[0] == "call" and keys[1] in (("builtin", "list"), ("builtin", "tuple")) and len(keys[2]) == 1 and not keys[3]:
+                    keys = keys[2][0]
+                n_ = ("call", ("builtin", "len"), (tags,), ())
+                sizes = [n_] + [("attr", SELF, a_) for a_, v_ in stores.items() if v_ == n_]
+                counting = idxs in [("call", ("builtin", "range"), (z_,), ()) for z_ in sizes] + [("call", ("builtin", "range"), (("const", 0), z_), ()) for z_ in sizes] \
+                    + [("call", ("ext", "itertools.count"), (), ()), ("call", ("ext", "itertools.count"), (("const", 0),), ())]
+                if counting and keys[0] == "comp" and keys[1] in ("gen", "list") and len(keys[3]) == 1 and keys[3][0][1] == tags and not keys[3][0][2]:
+                    table_attr, key_build = attr, subst(keys[2], {("elem", keys[3][0][0]): ("var", "tag")})
         if table_attr is None:
             ctx.bad("R19.1", self.file, "SimpleEncoder.__init__", "self._mapping = {key(tag): i for i, tag in enumerate(tags)}",
                     "the encoder table is not built as {key(tag): index} over enumerate(tags) (0-based, unfiltered): indices do not "
@@ -80,6 +92,14 @@ class C19:
                 if tids and not enc.of("store") and not enc.raises:
                     r = ("call", ("attr", ("attr", SELF, table_attr), "get"), (hit[0].term[2],), ())
                     key_lookup = subst(hit[0].term[2], {tagp: ("var", "tag")})
+        if r is None and len(enc.returns) == 2 and not enc.of("store") and not enc.raises:
+            # if key not in table: return None / return table[key]  -- the same lookup as table.get(key)
+            T_ = ("attr", SELF, table_attr)
+            hit = [x for x in enc.returns if x.term[0] == "sub" and x.term[1] == T_ and x.live == ("cmp", "in", x.term[2], T_)]
+            miss = [x for x in enc.returns if x.term == NONE and hit and x.live == ("cmp", "notin", hit[0].term[2], T_)]
+            if len(hit) == 1 and len(miss) == 1:
+                r = ("call", ("attr", T_, "get"), (hit[0].term[2],), ())
+                key_lookup = subst(hit[0].term[2], {tagp: ("var", "tag")})
         esite = f"{self.file}:{enc.node.lineno} SimpleEncoder.encode"
         if key_lookup is None:
             ctx.bad("R19.1", self.file, "SimpleEncoder.encode", f"return {show(r)[:60] if r else '-'}",
@@ -172,7 +192,9 @@ class C19:
                 want_val = ("const", 1) if val_of is None else ("attr", e, val_of)
                 guard = [c for c in conjuncts(st.live) if c[0] != "inloop"]
                 good = (tgt[0] == "sub" and tgt[2] == idx and val == want_val and guard == [("cmp", "isnot", idx, NONE)])
-            zeros_ok = arr is not None and arr[0] == "call" and arr[1] == ("ext", "numpy.zeros") and arr[2][:1] == (("attr", encoder, "num_classes"),)
+            nc_ = ("attr", encoder, "num_classes")
+            shp_ = (arr[2][0] if arr[2] else callkw(arr).get("shape")) if arr is not None and arr[0] == "call" else None
+            zeros_ok = arr is not None and arr[0] == "call" and arr[1] == ("ext", "numpy.zeros") and shp_ in (nc_, ("tuple", (nc_,)), ("list", (nc_,)))
             ret_ok = len(s.returns) == 1 and s.returns[0].term == arr
             if good and zeros_ok and ret_ok:
                 ctx.ok("R19.2", site, f"zeros(num_classes); only store encoded[encode(tag)] = {'1' if val_of is None else 'prediction.score'} for vocabulary tags")
@@ -222,7 +244,7 @@ class C19:
             fn = ci.methods["__hash__"][-1]
             site = f"{file}:{fn.lineno} {ci.name}.__hash__"
             s = ctx.summ.of_node(ci.module, fn, f"{ci.qual}.__hash__", ci)
-            SELF = ("param", "self")
+            SELF = ("param", s.params[0] if s.params else "self")
             fm = m.field_map(ci)
             problems = []
             if len(s.returns) != 1 or s.fall_live != FALSE:
